@@ -105,6 +105,10 @@ func main() {
 		c15child(os.Args[2:])
 		return
 	}
+	if len(os.Args) >= 2 && os.Args[1] == "c14batch" {
+		c14Batch()
+		return
+	}
 	if len(os.Args) >= 2 && os.Args[1] == "c15failchild" {
 		c15failChild(os.Args[2:])
 		return
